@@ -140,11 +140,11 @@ Qed.
    the part before the first singleton, into_parts / from_parts, API-built locales, matches, cmp / ==) are
    corollaries of the proved theorems: the MODEL's answer passes them on every input (including the canonicalize
    verdict: canonical text, never longer than the input, in every zone).  Not covered: the metamorphic-pair
-   operations `loc_meta` / `li_meta`, whose verdict is only meaningful on pairs the generator constructs *)
+   operations `loc_meta` / `li_meta` / `ext_meta`, whose verdict is only meaningful on pairs the generator constructs *)
 From UL Require Oracle OracleSound.
 Theorem C03_oracle_spec_sound : forall op args r,
   Oracle.oracle_model_locale op args = Some r ->
-  beqb op (bs "loc_meta"%string) = false -> beqb op (bs "li_meta"%string) = false ->
+  beqb op (bs "loc_meta"%string) = false -> beqb op (bs "li_meta"%string) = false -> beqb op (bs "ext_meta"%string) = false ->
   OracleSound.passes (Oracle.oracle_spec_locale op args r).
 Proof. exact OracleSound.locale_group_sound. Qed.
 
